@@ -483,6 +483,13 @@ def run(facts, rep, tier):
     _c15.rule_r3(facts, rep, "C09-R5")
     _c14.rule_r3(facts, rep, "C09-R5b")
     _c14.rule_r5(facts, rep, "C09-R5c")
+    rep.rule("C09-R6", "The reference left behind is titled with the whole heading: Node::plain_text folds every inline through GraphInline::plain_text, a variant table in which every "
+             "text-bearing variant (links included) contributes its payload's text.")
+    from . import plaintext
+    plaintext.rule_plain_text(facts, rep, "C09-R6")
+    rep.rule("C09-R7", "= C10-R8: extract / inline render both notes with the configured markdown options (one value reaches the database and the action context).")
+    from . import options
+    options.rule_one_options(facts, rep, "C09-R7")
 
 class _Sub:
     """Forwards to a Report but keeps only instances located in the refactoring actions."""
